@@ -303,7 +303,7 @@ class RRTRun:
             pl.randomPos = w_random
             pl.distance = w_dist
             pl.obstruction = w_coll
-            call = lambda: pl.findPath(self.goal)
+            call = lambda: pl.findPath(run.goal)
         else:
             dfun = DIST[cfg["custom"]["dist"]]
             cfun = make_collider(cfg["custom"]["coll"])
@@ -333,7 +333,7 @@ class RRTRun:
                 res = cfun(pos6(a.getPosition()), pos6(b.getPosition()))
                 run._rec_coll(a, b, res)
                 return c_wrap(res)      # ... and detectors built on np.any() return numpy bools
-            call = lambda: pl.findPathGeneral(lambda: pl.generalGenerateTree(gen, w_dist, w_coll), self.goal)
+            call = lambda: pl.findPathGeneral(lambda: pl.generalGenerateTree(gen, w_dist, w_coll), run.goal)
 
         # running invariant at the moment of insertion (the R-tree pickles the node: this is what it freezes)
         graph = pl.r6_tree_graph
@@ -344,23 +344,41 @@ class RRTRun:
             return real_place(node)
         graph.place = place
 
-        old = sys.stdout
-        sys.stdout = null = _Null()
-        try:
+        # one planner, one or two calls: the second call (another goal, another budget) re-uses and extends the tree
+        phases = [(cfg["iterations"], self.goal)]
+        if cfg.get("second"):
+            phases.append((cfg["second"]["iterations"], tm(list(cfg["second"]["goal"]))))
+        self.total_iters = 0
+        self._log_mark = 0
+        self._tree = [self.origin6]
+        self._arr = np.array([self.origin6])
+        self._accepted = []
+        for ph, (n_it, goal) in enumerate(phases):
+            self.goal = goal
+            pl.iterations = n_it
+            if ph:
+                self.rnd.budget += 200 * n_it + 600
+                pp.random = self.rnd
+                self.probes["second_call_on_same_planner"] += 1
+            old = sys.stdout
+            sys.stdout = null = _Null()
             try:
-                path = call()
-            finally:
-                sys.stdout = old
-                null.close()
-                pp.random = _load()["real_random"]
-                self.consumed = list(self.rnd.consumed)
-        except (HarnessError, Inconclusive, Violation):
-            raise
-        except Exception as e:      # the planner raised
-            raise Violation("T-return", "planner raised %s: %s (iterations=%d)" % (type(e).__name__, e, cfg["iterations"]),
-                            {"exception": type(e).__name__, "iterations": cfg["iterations"]})
-        self.steps_done = cfg["iterations"]
-        self._check_history(path)
+                try:
+                    path = call()
+                finally:
+                    sys.stdout = old
+                    null.close()
+                    pp.random = _load()["real_random"]
+                    self.consumed = list(self.rnd.consumed)
+            except (HarnessError, Inconclusive, Violation):
+                raise
+            except Exception as e:      # the planner raised
+                raise Violation("T-return", "planner raised %s: %s (iterations=%d%s)" % (
+                    type(e).__name__, e, n_it, ", second call" if ph else ""),
+                    {"exception": type(e).__name__, "iterations": n_it})
+            self.total_iters += n_it
+            self.steps_done = self.total_iters
+            self._check_history(path)
         return self
 
     # ---- running invariant ---------------------------------------------------------
@@ -402,7 +420,7 @@ class RRTRun:
         cfg = self.cfg
         pl = self.planner
         graph = pl.r6_tree_graph
-        n_iter = cfg["iterations"]
+        n_iter = self.total_iters          # all calls made on this planner so far
         items = graph.getAll()
         nodes = [it.object for it in items]
         P = self.probes
@@ -456,17 +474,19 @@ class RRTRun:
                 raise Violation("T2", "parent links from %r never reach the root (cycle)" % (p,), {})
         # ---- insertion-order replay (T5, T6) -------------------------------------------------
         segs = []
-        for ev in self.log.events:
+        new_events = self.log.events[self._log_mark:]      # what this call added to the log
+        self._log_mark = len(self.log.events)
+        for ev in new_events:
             if ev[0] == "gen":
                 segs.append([ev[1], []])
             elif segs:
                 segs[-1][1].append(ev)
-        tree = [self.origin6]
-        arr = np.array([self.origin6])
-        accepted = []
+        tree = self._tree                                   # continues where the previous call on this planner stopped
+        arr = self._arr
+        accepted = self._accepted
         kmax = cfg["k"]
         classes = self.transitions
-        have_place = any(ev[0] == "place" for ev in self.log.events)
+        have_place = any(ev[0] == "place" for ev in new_events)
         rewired = set()
         for p_, (pp_, c_) in self.at_insert.items():
             if p_ in cost and (parent.get(p_) != pp_ or abs(cost[p_] - c_) > REL * max(1.0, abs(c_))):
@@ -594,6 +614,7 @@ class RRTRun:
             tree.append(s)
             arr = np.vstack([arr, np.array(s)])
             accepted.append(s)
+        self._arr = arr
         if set(accepted) != set(pos) - {self.origin6} or len(accepted) != n_iter:
             extra = [p for p in pos if p != self.origin6 and p not in set(accepted)]
             raise Violation("T5", "%d tree nodes never passed the acceptance test (range + free first edge), e.g. %r; "
@@ -626,9 +647,9 @@ class RRTRun:
             P["path_depth_ge14"] += 1
         if len(chain) >= 30:
             P["path_depth_ge30"] += 1
-        if cfg["iterations"] == 1:
+        if cfg["iterations"] == 1 and n_iter == 1:
             P["iterations_1"] += 1
-        if cfg["iterations"] == 2:
+        if cfg["iterations"] == 2 and n_iter == 2:
             P["iterations_2"] += 1
         if cfg.get("terrain"):
             P["terrain_generated"] += 1
@@ -757,6 +778,10 @@ def gen_trace(seed):
                 cfg["custom"]["dist"] = "euclid3"
             else:
                 cfg["max"] = 100.0
+    if r.random() < 0.25:
+        # the same planner asked again: another goal, usually a much smaller budget (coarse run, then a short refinement)
+        cfg["second"] = {"iterations": pick_weighted(r, [(1, 1.0), (2, 2.0), (3, 2.0), (r.randint(4, 12), 2.0), (r.randint(13, 60), 1.0)]),
+                         "goal": [round(r.uniform(-B, B), 3) for _ in range(3)] + [round(r.uniform(-rot, rot), 3) if rot else 0.0 for _ in range(3)]}
     cfg["budget"] = 200 * iters + 600
     return {"property": PROP, "config": cfg, "draw_seed": seed}
 
@@ -789,7 +814,7 @@ ASSUMPTIONS = [
 EXPECTED_PROBES = ["rejected_for_min", "rejected_for_max", "rejected_for_collision", "rejected_exact_duplicate",
                    "tie_in_first_nearest", "tie_at_kth_neighbour", "parent_not_nearest", "cheaper_candidate_collides",
                    "k_exceeds_tree_size", "terrain_generated", "iterations_1", "iterations_2", "path_goal_nearest_root",
-                   "path_depth_ge4", "path_depth_ge14", "path_depth_ge30", "custom_callbacks", "builtin_pipeline", "arc_distance_mode"]
+                   "path_depth_ge4", "path_depth_ge14", "path_depth_ge30", "second_call_on_same_planner", "custom_callbacks", "builtin_pipeline", "arc_distance_mode"]
 
 
 def warmup():
@@ -814,7 +839,7 @@ def describe(trace):
     return {"mode": c["mode"], "iterations": c["iterations"], "k": c["k"], "min": c["min"], "max": c["max"],
             "dmode": c["dmode"], "boxes": len(c.get("boxes", [])), "terrain": c.get("terrain"),
             "custom": c.get("custom", {}).get("dist"), "collider": c.get("custom", {}).get("coll", {}).get("kind"),
-            "script": c["script"], "origin": c["origin"], "goal": c["goal"],
+            "script": c["script"], "origin": c["origin"], "goal": c["goal"], "second_call": c.get("second"),
             "draws": ("explicit list of %d" % len(trace["draws"])) if "draws" in trace else "generated from draw_seed %d" % trace["draw_seed"]}
 
 
